@@ -79,6 +79,13 @@ type Gen struct {
 	storeFresh  bool // the store being translated writes an object allocated by this function
 	inlineDepth int
 	entryPrefix int
+	pathPoints  []pathPoint
+}
+
+type pathPoint struct {
+	label  string
+	pc     string
+	prefix int
 }
 
 type retPoint struct {
@@ -957,6 +964,7 @@ func (g *Gen) processBlock(b *ssa.BasicBlock, entrySt *State) {
 					}
 				}
 				g.checkInvariants(l2, bst, vals, "inv-keep")
+				g.pathPoints = append(g.pathPoints, pathPoint{label: fmt.Sprintf("backedge:loop%d:%s", l2.ordinal, g.lastLine(b)), pc: c, prefix: len(g.sc.lines)})
 			}
 		}
 	}
@@ -1351,11 +1359,38 @@ func (g *Gen) checkInvariants(li *loopInfo, st *State, phiVals map[*ssa.Phi]stri
 		g.refusef("%v", err)
 		return
 	}
+	// back edges are told apart by the source line of the last statement before the jump
+	at := ""
+	if kind == "inv-keep" && g.curBlock != nil {
+		for i := len(g.curBlock.Instrs) - 1; i >= 0 && at == ""; i-- {
+			if _, isDbg := g.curBlock.Instrs[i].(*ssa.DebugRef); isDbg {
+				continue
+			}
+			at = g.srcLine(g.curBlock.Instrs[i].Pos())
+		}
+		if at == "" {
+			for _, p := range g.curBlock.Preds {
+				for i := len(p.Instrs) - 1; i >= 0 && at == ""; i-- {
+					if _, isDbg := p.Instrs[i].(*ssa.DebugRef); isDbg {
+						continue
+					}
+					at = g.srcLine(p.Instrs[i].Pos())
+				}
+			}
+		}
+		if len(at) > 48 {
+			at = at[:48]
+		}
+		if at != "" {
+			at = " @ " + at
+		}
+	}
 	for i, t := range terms {
 		label := clauses[i].Label
 		if label == "" {
 			label = clauses[i].Text
 		}
+		label += at
 		o := g.addObl(kind, fmt.Sprintf("loop%d:%s", li.ordinal, label), st, t, token.NoPos)
 		o.Text = clauses[i].Text
 	}
@@ -1412,4 +1447,19 @@ func (g *Gen) finishEnsures() {
 	if !g.ct.ModAll {
 		g.frameObligation()
 	}
+}
+
+func (g *Gen) lastLine(b *ssa.BasicBlock) string {
+	for i := len(b.Instrs) - 1; i >= 0; i-- {
+		if _, isDbg := b.Instrs[i].(*ssa.DebugRef); isDbg {
+			continue
+		}
+		if l := g.srcLine(b.Instrs[i].Pos()); l != "" {
+			if len(l) > 48 {
+				l = l[:48]
+			}
+			return l
+		}
+	}
+	return fmt.Sprintf("block%d", b.Index)
 }
